@@ -402,7 +402,9 @@ func c06Num(rng *rand.Rand, bits uint) string {
 	}
 }
 
-var c06Events = []string{"", "none", "started", "stopped", "completed", "STARTED", "Stopped", "cOmPlEtEd", "NONE"}
+var c06Events = []string{"", "none", "started", "stopped", "completed", "STARTED", "Stopped", "cOmPlEtEd", "NONE",
+	// letters that Unicode CASE FOLDING (not lower-casing) identifies with ASCII ones: U+017F long s, U+212A Kelvin sign; look-alikes
+	"\u017ftopped", "\u017ftarted", "\u017fTARTED", "\u017fTOPPED", "\uff53tarted", "\u0455topped", "\u00dftarted", "completed\u212a", "n\u00f6ne"}
 var c06Unrelated = []string{"key", "trackerid", "no_peer_id", "supportcrypto", "corrupt", "redundant", "INFO_HASH", "Info_Hash", "x", "", "passkey",
 	"Key", "İnfo_hash", "k\xc4\xb0\xe2\x84\xaa", "\xff\xfe", "Event\x00", "port ", " port", "ıp", "numwantİ", "peer-id", "ip4", "left[]"}
 
@@ -607,17 +609,19 @@ func c06Stream(o *Out, rng *rand.Rand, n int) {
 		}
 		c06Scrape(o, "many-unrelated-scrape", uri+"info_hash=aaaaaaaaaaaaaaaaaaaa&info_hash=bbbbbbbbbbbbbbbbbbbb", 50)
 	}
-	// LONG request strings: one unrelated value of 4 KiB .. 60 KiB before / after the tracker's own parameters, a long path
-	for _, l := range []int{4096, 8191, 16384, 60000} {
+	// LONG request strings: one unrelated value of 4 .. 16 KiB before / after the tracker's own parameters, a long path
+	// (the value is sent as it is, not escaped at random: the model's evaluation of a case grows faster than linearly in its size)
+	for _, l := range []int{4096, 8191, 16384} {
 		for pos := 0; pos < 2; pos++ {
 			g := c06Valid(rng)
-			junk := c06KV{"pad", strings.Repeat("x", l)}
+			uri := c06Render(rng, "/announce", g.kvs)
+			pad := "pad=" + strings.Repeat("x", l)
 			if pos == 0 {
-				g.kvs = append([]c06KV{junk}, g.kvs...)
+				uri = strings.Replace(uri, "?", "?"+pad+"&", 1)
 			} else {
-				g.kvs = append(g.kvs, junk)
+				uri += "&" + pad
 			}
-			c06Announce(o, "long-uri", c06Render(rng, "/announce", g.kvs), g.opt, g.hdrs, g.remote)
+			c06Announce(o, "long-uri", uri, g.opt, g.hdrs, g.remote)
 		}
 		c06Scrape(o, "long-uri-scrape", "/scrape/"+strings.Repeat("p", l)+"?info_hash=aaaaaaaaaaaaaaaaaaaa", 50)
 	}
